@@ -55,6 +55,9 @@ def group_contract(E, args, kwargs):
     g = new_input(E, E.fresh_name(f"grp_{base.name}").replace("#", "_"), base.dtype, gshape, device=base.device)
     g.fresh = True
     g.attrs["grouped_from"] = (STensor(base.dtype, list(base.shape), base.snap(), device=base.device, name=base.name), axis, G)
+    # reshape returns a view whenever it can: the grouped tensor MAY share the storage of its argument (frame conditions must treat a
+    # write into it as a write into the argument)
+    g.attrs["may_alias"] = base.root()
     E.ps.setdefault("groups", []).append(g)
     return g
 
